@@ -878,6 +878,166 @@ fn gen_unit(rng: &mut Rng) -> Option<UnitCase> {
     Some(UnitCase { cfg, sect, abbrev, section, items: l.items, header: text })
 }
 
+
+// ---------------------------------------------------------------------------------------------
+// compiler-built corpus (thorough tier; a frozen sample is in harness/corpus/C02.txt): small C / C++
+// sources built by gcc and clang for DWARF 2-5, 32/64-bit format, type units, split DWARF, 32-bit and
+// big-endian targets; the expected listing comes from `llvm-dwarfdump --debug-info --debug-types`.
+
+const SRC_C: &str = r#"
+struct P { int x; struct { char c; long l; } in; };
+enum E { A, B };
+typedef int (*fn_t)(struct P *, enum E);
+union U { float f; unsigned u; };
+static inline int sq(int v) { int t = v * v; return t; }
+int f(struct P *p, enum E e) { { int y = sq(p->x); if (e == B) { long z = y; return (int)z; } return y; } }
+static int g(union U u, int n) { int acc = 0; for (int i = 0; i < n; i++) { int w = i * (int)u.u; acc += w; } return acc; }
+int main(void) { struct P p = {3, {'a', 4}}; union U u; u.u = 2; fn_t h = f; return h(&p, A) + g(u, 3); }
+"#;
+
+const SRC_CPP: &str = r#"
+namespace ns { template <typename T> struct Box { T v; T get() const { return v; } };
+  class Base { public: virtual ~Base() {} virtual int id() { return 1; } };
+  class D : public Base { int k; public: D(int k) : k(k) {} int id() override { auto l = [this](int a) { return a + k; }; return l(2); } };
+  namespace inner { enum class Color : char { Red, Green }; struct Empty {}; } }
+int main() { ns::Box<long> b{4}; ns::D d(3); ns::Base *p = &d; ns::inner::Empty e; (void)e; return (int)b.get() + p->id(); }
+"#;
+
+fn run(cmd: &str, args: &[&str], dir: &std::path::Path) -> Option<String> {
+    let out = std::process::Command::new(cmd).args(args).current_dir(dir).output().ok()?;
+    if !out.status.success() {
+        return None;
+    }
+    Some(String::from_utf8_lossy(&out.stdout).into_owned())
+}
+
+fn tag_numbers() -> std::collections::HashMap<&'static str, u16> {
+    let mut m = std::collections::HashMap::new();
+    for v in 0..=0xffffu16 {
+        if let Some(s) = gimli::DwTag(v).static_string() {
+            m.entry(s).or_insert(v);
+        }
+    }
+    m
+}
+
+/// (unit start, next unit, items) per unit of one section of an `llvm-dwarfdump` listing
+fn parse_dump(text: &str, section_title: &str, tags: &std::collections::HashMap<&'static str, u16>) -> Vec<(usize, usize, Option<Vec<(usize, isize, u16)>>)> {
+    let mut units: Vec<(usize, usize, Option<Vec<(usize, isize, u16)>>)> = Vec::new();
+    let mut in_sec = false;
+    for line in text.lines() {
+        if line.ends_with(" contents:") {
+            in_sec = line.trim_end_matches(" contents:") == section_title;
+            continue;
+        }
+        if !in_sec || !line.starts_with("0x") {
+            continue;
+        }
+        let Some((off_s, rest)) = line.split_once(':') else { continue };
+        let Ok(off) = usize::from_str_radix(off_s.trim_start_matches("0x"), 16) else { continue };
+        if rest.contains(" Unit: length") {
+            let next = rest.rsplit("next unit at 0x").next().and_then(|t| usize::from_str_radix(t.trim_end_matches(')'), 16).ok());
+            if let Some(n) = next {
+                units.push((off, n, Some(Vec::new())));
+            }
+            continue;
+        }
+        let spaces = rest.len() - rest.trim_start().len();
+        let word = rest.trim_start().split_whitespace().next().unwrap_or("");
+        let Some(u) = units.last_mut() else { continue };
+        let tag = if word == "NULL" { Some(0u16) } else { tags.get(word).copied() };
+        match (tag, u.2.as_mut()) {
+            (Some(t), Some(v)) if spaces >= 1 => v.push((off, ((spaces - 1) / 2) as isize, t)),
+            _ => u.2 = None, // a tag name we cannot map: no expectation for this unit
+        }
+    }
+    units
+}
+
+pub fn corpus_lines() -> Vec<String> {
+    let dir = std::path::PathBuf::from(concat!(env!("CARGO_MANIFEST_DIR"), "/target/c02-corpus"));
+    let _ = std::fs::create_dir_all(&dir);
+    if std::fs::write(dir.join("a.c"), SRC_C).is_err() || std::fs::write(dir.join("b.cpp"), SRC_CPP).is_err() {
+        return vec![];
+    }
+    // (compiler, arguments, output file, endian token)
+    let builds: Vec<(&str, Vec<&str>, &str, &str)> = vec![
+        ("gcc", vec!["-g", "-O1", "a.c", "-o", "g5.out"], "g5.out", "le"),
+        ("gcc", vec!["-g", "-gdwarf-4", "-fdebug-types-section", "a.c", "-o", "g4t.out"], "g4t.out", "le"),
+        ("gcc", vec!["-g", "-gdwarf-3", "-O2", "a.c", "-o", "g3.out"], "g3.out", "le"),
+        ("gcc", vec!["-g", "-gdwarf-2", "a.c", "-o", "g2.out"], "g2.out", "le"),
+        ("gcc", vec!["-g", "-gdwarf-5", "-gdwarf64", "a.c", "-o", "g64.out"], "g64.out", "le"),
+        ("gcc", vec!["-g", "-m32", "-c", "a.c", "-o", "g32.o"], "g32.o", "le"),
+        ("gcc", vec!["-g", "-gsplit-dwarf", "-gdwarf-5", "-c", "a.c", "-o", "gs.o"], "gs.o", "le"),
+        ("gcc", vec!["-g", "-gsplit-dwarf", "-gdwarf-5", "-c", "a.c", "-o", "gs.o"], "gs.dwo", "le"),
+        ("g++", vec!["-g", "-O0", "b.cpp", "-o", "gpp.out"], "gpp.out", "le"),
+        ("g++", vec!["-g", "-gdwarf-4", "-fdebug-types-section", "-O1", "b.cpp", "-o", "gpp4t.out"], "gpp4t.out", "le"),
+        ("clang", vec!["-g", "-gdwarf-5", "a.c", "-c", "-o", "c5.o"], "c5.o", "le"),
+        ("clang", vec!["-g", "-gdwarf-4", "-gdwarf64", "-c", "a.c", "-o", "c64.o"], "c64.o", "le"),
+        ("clang", vec!["-g", "-gdwarf-2", "-c", "a.c", "-o", "c2.o"], "c2.o", "le"),
+        ("clang", vec!["--target=powerpc64-unknown-linux-gnu", "-g", "-c", "a.c", "-o", "ppc.o"], "ppc.o", "be"),
+        ("clang", vec!["--target=mips-unknown-linux-gnu", "-g", "-gdwarf-4", "-c", "a.c", "-o", "mips.o"], "mips.o", "be"),
+        ("clang++", vec!["-g", "-gdwarf-5", "-O1", "-c", "b.cpp", "-o", "cpp5.o"], "cpp5.o", "le"),
+    ];
+    let tags = tag_numbers();
+    let mut out = Vec::new();
+    for (cc, args, file, e) in builds {
+        if run(cc, &args, &dir).is_none() {
+            continue;
+        }
+        let Some(dump) = run("llvm-dwarfdump", &["--debug-info", "--debug-types", file], &dir) else { continue };
+        for (info, abbrev, sect) in [
+            (".debug_info", ".debug_abbrev", "info"),
+            (".debug_types", ".debug_abbrev", "types"),
+            (".debug_info.dwo", ".debug_abbrev.dwo", "info"),
+        ] {
+            let ib = dir.join("info.bin");
+            let ab = dir.join("abbrev.bin");
+            let _ = std::fs::remove_file(&ib);
+            let _ = std::fs::remove_file(&ab);
+            let d1 = format!("{info}=info.bin");
+            let d2 = format!("{abbrev}=abbrev.bin");
+            // llvm-objcopy also reads the foreign (big-endian) objects; GNU objcopy is the fallback
+            if run("llvm-objcopy", &["--dump-section", &d1, "--dump-section", &d2, file, "/dev/null"], &dir).is_none()
+                && run("objcopy", &["--dump-section", &d1, "--dump-section", &d2, file, "/dev/null"], &dir).is_none()
+            {
+                continue;
+            }
+            let (Ok(ibytes), Ok(abytes)) = (std::fs::read(&ib), std::fs::read(&ab)) else { continue };
+            let ah = hex(&abytes);
+            for (start, next, items) in parse_dump(&dump, info, &tags) {
+                if next > ibytes.len() || start >= next {
+                    continue;
+                }
+                let sh = hex(&ibytes[start..next]);
+                let Some(items) = items else { continue };
+                if items.is_empty() {
+                    continue;
+                }
+                // children flag: the next listed entry is one level deeper
+                let full: Vec<Item> = items
+                    .iter()
+                    .enumerate()
+                    .map(|(i, &(o, d, t))| (o - start, d, t, t != 0 && items.get(i + 1).map_or(false, |n| n.1 == d + 1)))
+                    .collect();
+                let exp = exp_tok(&items_s(&full), &sh);
+                out.push(format!("die-hdr {e} {sect} {sh}"));
+                for st in ["raw", "rawskip", "entry", "dfs", "sib", "tree", "treeskip"] {
+                    out.push(format!("die-nav {st} {e} {sect} {ah} {sh} - {exp}"));
+                }
+                let offs: Vec<String> = full.iter().take(300).map(|i| i.0.to_string()).collect();
+                out.push(format!("die-at {e} {sect} {ah} {sh} {} {exp}", offs.join(",")));
+                // a few start positions in the middle
+                for k in [full.len() / 3, full.len() / 2, full.len() - 1] {
+                    out.push(format!("die-nav sib {e} {sect} {ah} {sh} {} {exp}", full[k].0));
+                    out.push(format!("die-nav tree {e} {sect} {ah} {sh} {} {exp}", full[k].0));
+                }
+            }
+        }
+    }
+    out
+}
+
 fn es(c: &Cfg) -> &'static str {
     if c.big { "be" } else { "le" }
 }
@@ -885,7 +1045,7 @@ fn es(c: &Cfg) -> &'static str {
 pub fn gen(ctx: &Ctx, emit: &mut dyn FnMut(String)) {
     let mut rng = ctx.rng(2);
     const STYLES: &[&str] = &["raw", "rawskip", "entry", "dfs", "sib", "tree", "treeskip"];
-    let n = ctx.n(1500, 30000);
+    let n = ctx.n(1500, 8000);
     let mut made = 0;
     let mut tries = 0;
     while made < n && tries < 20 * n {
@@ -956,7 +1116,7 @@ pub fn gen(ctx: &Ctx, emit: &mut dyn FnMut(String)) {
     }
 
     // ---- unit headers: sections with several units, every version / unit type / format; malformed fields
-    for i in 0..ctx.n(1500, 30000) {
+    for i in 0..ctx.n(1500, 10000) {
         let big = rng.chance(1, 2);
         let sect_types = rng.chance(1, 5);
         let nunits = rng.range(1, 4);
@@ -994,7 +1154,7 @@ pub fn gen(ctx: &Ctx, emit: &mut dyn FnMut(String)) {
     }
 
     // ---- abbreviation tables: code schemes x lookups; duplicates are rejected
-    for _ in 0..ctx.n(3000, 60000) {
+    for _ in 0..ctx.n(3000, 30000) {
         let nd = match rng.below(6) {
             0 => 0,
             1 => rng.range(20, 60),
@@ -1060,5 +1220,9 @@ pub fn gen(ctx: &Ctx, emit: &mut dyn FnMut(String)) {
             emit(format!("abbrev-get {} {} {}", hex(&m), junk.len(), look_s.join(",")));
         }
     }
-    let _ = Tier::Quick;
+    if ctx.tier == Tier::Thorough {
+        for l in corpus_lines() {
+            emit(l);
+        }
+    }
 }
